@@ -24,7 +24,7 @@ BUDGET = {'quick': 240, 'thorough': 3000}
 
 
 def shards(tier):
-    sh = [s for s in e1.std_shards(tier, with_p=True)
+    sh = [s for s in e1.std_shards(tier, with_p=True, with_hist=True)
           if not (s[0] == 'S' and s[2] > 10) and not (s[0] == 'F' and s[3] == 'interordinal'
                                                       and s[1] > 5)]
     # wide tables: only paddings that keep the intents small (blank / copy columns)
